@@ -118,7 +118,13 @@ def Reader.read (r : Reader) (n : Nat) (ch : Chan) : ReadRes × Reader × Chan :
     (.data (r.unread.take n), { r with unread := r.unread.drop n }, ch)
   else match ch.wire with
     | [] => (if ch.closed then .err .eof else .blocked, r, ch)
-    | .cut :: rest => (.err .short, r, { ch with wire := rest })
+    | .cut :: rest =>
+      -- a truncated frame: at the end of the stream `io.ReadFull` reports a short read; when more
+      -- bytes follow, the next frame-sized read is misaligned (never a ciphertext) and the fragment
+      -- moves on to the next read
+      match rest with
+      | [] => (.err .short, r, { ch with wire := [] })
+      | _ :: rest' => (.err .decrypt, r, { ch with wire := .cut :: rest' })
     | w :: rest =>
       let ch' := { ch with wire := rest }
       match openWire r.key r.nonce w with
